@@ -109,6 +109,8 @@ def check(env, rep, tier):
                        "to_cow does not cut a quoted value at the first closing quote (search used: %s): it differs from the character iterator when text with another quote follows" % (others or "none"),
                        {"file": body["span"]["f"], "line": body["span"]["l"], "fn": path},
                        sample={"rule": "C17.5", "paths_cut_at_first_quote": firsts, "other_searches": others})
+            if kind == "to_cow":
+                check_cow_escape_free(prog, rep, body, path)
             if kind in ("parser", "attr") and in_base is not None:
                 for s, rv in res:
                     # C17.4 substrings
@@ -145,3 +147,47 @@ def check(env, rep, tier):
                        {"file": body["span"]["f"], "line": body["span"]["l"], "fn": path})
         if cfg == "default":
             rep.floor("C17.1", "panic-capable sites analysed in the link-format parser", nsites, 12)
+
+
+def check_cow_escape_free(prog, rep, body, path):
+    """C17.6: for a quoted value the borrowed form of to_cow is handed out only on paths where a search for the
+    escape character over a region covering the returned slice came back empty (the character iterator removes
+    every backslash, so a borrowed slice containing one differs from it)"""
+    a = prog.adts.get("link_format::Unquote")
+    sa = prog.adts.get("link_format::UnquoteState")
+    si = [i for i, f in enumerate(a["variants"][0]["fields"]) if f["name"] == "state"] if a else []
+    if not (si and sa):
+        rep.missing("C17.6", "Unquote.state")
+        return
+    bad, n_quoted = [], 0
+    for vi, vd in enumerate(sa["variants"]):
+        if vd["name"] == "NotQuoted":
+            continue
+        I = new_interp(prog)
+        I.no_join_bodies.add(body["id"])
+        I.no_join_prefixes = ("link_format::Unquote",)
+        st = State()
+        a0 = I.mat(st, prog.ty(body["locals"][1]["ty"]), "self")
+        I.ensure(st, a0.place, prog.ty(body["locals"][1]["ty"])[2], "self")
+        I.write(st, a0.place.extend(("f", si[0])), EnumV("link_format::UnquoteState", {vi: StructV([])}, None))
+        I, res = run(prog, body, args=[a0], st=st, I=I)
+        for s, rv in res:
+            if not (isinstance(rv, EnumV) and list(rv.variants) == [0] and isinstance(rv.variants[0], StructV) and rv.variants[0].fields):
+                continue
+            sl = rv.variants[0].fields[0]
+            if not isinstance(sl, SliceV):
+                bad.append("borrowed result not tracked")
+                continue
+            quoted = vd["name"] == "Quoted" or ("boundary", sl.base) in s.ghost
+            if not quoted:
+                continue
+            n_quoted += 1
+            cover = False
+            for (b_, off, ln) in s.ghost.get(("absent", 92), ()):
+                if b_ == sl.base and s.entails(sl.off - off) and s.entails(off + ln - sl.off - sl.len):
+                    cover = True
+            if not cover:
+                bad.append("state %s: a slice of the raw text is returned although no search showed it free of backslashes" % vd["name"])
+    rep.ob("C17.6", "to_cow|borrowed-only-without-escapes", not bad and n_quoted >= 2,
+           "to_cow: %s (borrowed quoted paths: %d)" % ("; ".join(sorted(set(bad))[:2]) or "no borrowed path for quoted values found", n_quoted),
+           {"file": body["span"]["f"], "line": body["span"]["l"], "fn": path}, sample={"rule": "C17.6", "borrowed_quoted_paths": n_quoted})
